@@ -244,6 +244,10 @@ func c18Scenarios(tier string) []c18Scenario {
 				out = append(out, c18Scenario{world: "W0+subscription-roots", sub: c18SubTick, client: c, up: [][]upAction{u, u}, timers: 0, bound: 1, planner: "plain"})
 			}
 		}
+		// a heartbeat firing *and* one preemption (two deviations) while an event is in flight
+		for _, c := range [][]cliAction{{"stop-unknown"}, {"terminate"}} {
+			out = append(out, c18Scenario{world: "W0+subscription-roots", sub: c18SubTick, client: c, up: [][]upAction{{"event"}, {"event"}}, timers: 1, bound: 2, planner: "plain"})
+		}
 		for _, c := range [][]cliAction{{"stop1"}, {"terminate"}, {"close"}} {
 			for _, u := range [][]upAction{{"event"}, {"complete"}, {"event", "event"}} {
 				out = append(out, c18Scenario{world: "W0+subscription-roots", sub: c18SubCross, client: c, up: [][]upAction{u, u}, timers: 0, bound: 1, planner: "plain"})
